@@ -50,11 +50,18 @@ class C10(Property):
                         continue
                     lvl = pieces[pos_ix - 1].level + (1 if pieces[pos_ix - 1].kind == "cmdname" else 0) if pos_ix > 0 else 0
                     o = lv_opts.get(lvl, opts)
-                    for what in ("help", "version"):
-                        if what == "version" and rng.random() < 0.5:
+                    for what in ("help", "version", "both"):
+                        if what in ("version", "both") and rng.random() < 0.5:
                             continue
                         item = rng.choice([b"--help", b"-h"]) if what == "help" else rng.choice([b"--version", b"-V"])
-                        argv = gen.flatten(pieces[:pos_ix]) + [item] + gen.flatten(pieces[pos_ix:])
+                        ins = [item]
+                        if what == "both":
+                            # the help flag AND the version flag of the same level, in either order: help is what the
+                            # property promises whenever the help flag is there
+                            ins = [rng.choice([b"--help", b"-h"]), rng.choice([b"--version", b"-V"])]
+                            if rng.random() < 0.5:
+                                ins.reverse()
+                        argv = gen.flatten(pieces[:pos_ix]) + ins + gen.flatten(pieces[pos_ix:])
                         cases.append(Case("%s%s%d" % (gid, what[0], pos_ix), opts, argv,
                                           tags={"role": what, "valid": valid, "group": gid, "level": lvl, "marker": o["descr"],
                                                 "has_version": has_version(o), "version": o["version"],
@@ -89,11 +96,11 @@ class C10(Property):
             if cls == "OK":
                 out.append(Finding("violation", c, "a %s request on the line, yet the run yields a parsed value: %s" % (t["role"], ic[1])))
                 continue
-            want_cls = "HELP" if t["role"] == "help" else "VERSION"
+            want_cls = "HELP" if t["role"] in ("help", "both") else "VERSION"
             if cls != want_cls:
                 out.append(Finding("violation", c, "a %s request (item of its own, left of `--`) did not win: outcome is %s"
                                    % (t["role"], common.show(ic))))
-            elif t["role"] == "help":
+            elif t["role"] in ("help", "both"):
                 got = compare.help_marker(gen.unhx(ic[1]))
                 if got != t["marker"].encode():
                     out.append(Finding("violation", c, "help describes level %r instead of the innermost command entered (%r)"
